@@ -348,9 +348,8 @@ class Z3Proc:
         self.restarts = 0
 
     def _start(self):
-        self.p = subprocess.Popen(
-            [self.binary, "-in", "-smt2"], stdin=subprocess.PIPE, stdout=subprocess.PIPE, stderr=subprocess.STDOUT, text=True, bufsize=1
-        )
+        self.p = subprocess.Popen([self.binary, "-in", "-smt2"], stdin=subprocess.PIPE, stdout=subprocess.PIPE, stderr=subprocess.STDOUT, bufsize=0)
+        self._buf = b""
 
     def close(self):
         if self.p is not None:
@@ -361,33 +360,55 @@ class Z3Proc:
                 pass
             self.p = None
 
+    def _send(self, text):
+        data = text.encode()
+        fd = self.p.stdin.fileno()
+        while data:
+            n = os.write(fd, data)
+            data = data[n:]
+
     def _read_balanced(self, deadline):
-        """Read one top-level answer (a symbol line or a balanced s-expression)."""
-        buf = ""
-        depth = 0
-        started = False
-        fd = self.p.stdout
+        """Read one top-level answer (a symbol line or a balanced s-expression); raw fd reads so that
+        select() sees everything that is pending."""
+        fd = self.p.stdout.fileno()
         while True:
+            # try to cut one complete answer out of the buffer
+            txt = self._buf.decode(errors="replace")
+            stripped = txt.lstrip()
+            if stripped:
+                if stripped[0] != "(":
+                    nl = stripped.find("\n")
+                    if nl >= 0:
+                        ans = stripped[:nl]
+                        self._buf = stripped[nl + 1:].encode()
+                        return ans
+                else:
+                    depth = 0
+                    instr = False
+                    for i, ch in enumerate(stripped):
+                        if ch == '"':
+                            instr = not instr
+                        elif instr:
+                            continue
+                        elif ch == "(":
+                            depth += 1
+                        elif ch == ")":
+                            depth -= 1
+                            if depth == 0:
+                                self._buf = stripped[i + 1:].encode()
+                                return stripped[: i + 1]
             remaining = deadline - time.time()
             if remaining <= 0:
                 return None
             r, _, _ = select.select([fd], [], [], min(remaining, 0.5))
             if not r:
                 if self.p.poll() is not None:
-                    return buf or None
+                    return None
                 continue
-            line = fd.readline()
-            if line == "":
-                return buf or None
-            buf += line
-            for ch in line:
-                if ch == "(":
-                    depth += 1
-                    started = True
-                elif ch == ")":
-                    depth -= 1
-            if depth <= 0 and buf.strip():
-                return buf
+            chunk = os.read(fd, 1 << 16)
+            if not chunk:
+                return None
+            self._buf += chunk
 
     def check(self, script, names=(), timeout_s=60.0):
         """Returns (status, model_text_or_None, seconds).  status in sat/unsat/unknown/timeout/error."""
@@ -397,8 +418,8 @@ class Z3Proc:
         self.queries += 1
         deadline = t0 + timeout_s
         try:
-            self.p.stdin.write("(reset)\n" + script + "\n")
-            self.p.stdin.flush()
+            self._buf = b""
+            self._send("(reset)\n" + script + "\n")
         except BrokenPipeError:
             self.close()
             return "error", "broken pipe", time.time() - t0
@@ -419,8 +440,7 @@ class Z3Proc:
         model = None
         if st == "sat" and names:
             try:
-                self.p.stdin.write("(set-option :pp.decimal true)(set-option :pp.decimal_precision 30)(get-value (%s))\n" % " ".join(names))
-                self.p.stdin.flush()
+                self._send("(set-option :pp.decimal true)(set-option :pp.decimal_precision 30)(get-value (%s))\n" % " ".join(names))
                 model = self._read_balanced(max(deadline, time.time() + 10))
             except BrokenPipeError:
                 model = None
